@@ -77,13 +77,40 @@ def build_nostd(opt):
     return _nostd_built[opt]
 
 
+def repo_fingerprint():
+    """Digest of the sources the four builds are made from (content, not time stamps)."""
+    import hashlib
+    h = hashlib.sha1()
+    for root, dirs, files in os.walk(os.path.join(core.REPO, "src")):
+        dirs.sort()
+        for f in sorted(files):
+            p = os.path.join(root, f)
+            h.update(p.encode())
+            with open(p, "rb") as fh:
+                h.update(fh.read())
+    with open(os.path.join(core.REPO, "Cargo.toml"), "rb") as fh:
+        h.update(fh.read())
+    return h.hexdigest()
+
+
 def binaries():
-    b = {}
-    b["default"] = os.path.join(core.build_harness(), "vh_transcript")
-    b["noopt"] = os.path.join(core.build_harness(features=["std"], target="noopt"), "vh_transcript")
-    b["nostd"] = build_nostd(False)
-    b["nostd_opt"] = build_nostd(True)
-    return b
+    """The four configurations must be built from the SAME source state: if the repository changes while they are
+    being built (other work in progress on the tree) the builds are repeated; transcripts of builds made from
+    different sources would differ for reasons that have nothing to do with the feature configuration."""
+    for attempt in range(4):
+        fp = repo_fingerprint()
+        if attempt:
+            core._built.clear()
+            _nostd_built.clear()
+        b = {}
+        b["default"] = os.path.join(core.build_harness(), "vh_transcript")
+        b["noopt"] = os.path.join(core.build_harness(features=["std"], target="noopt"), "vh_transcript")
+        b["nostd"] = build_nostd(False)
+        b["nostd_opt"] = build_nostd(True)
+        if repo_fingerprint() == fp:
+            return b
+        log("[build] the repository changed while the configurations were being built: rebuilding all of them")
+    raise ToolError("the repository under test keeps changing during the builds of the feature configurations")
 
 
 # --------------------------------------------------------------------------- case list
@@ -684,7 +711,7 @@ def run(tier, replay=None):
     if not quick:
         binding_demos(ctx, std_cfgs)
     # ---- stage 4: transcript differential over the four builds
-    cases = case_list(ctx.seed, 500 if quick else 6000, tier)
+    cases = case_list(ctx.seed, 500 if quick else 4000, tier)
     c1, n1, d1 = run_transcripts(ctx, bins, cases, "grid")
     classes |= {("t",) + c for c in c1}
     fj = forged_cases(ctx.seed, 80 if quick else 1000)
